@@ -156,6 +156,13 @@ pub fn run() {
                     );
                     "ok".into()
                 }
+                ["auditclear"] => {
+                    for p in verif_hooks::ports() {
+                        let _ = verif_hooks::remove(p);
+                    }
+                    let _ = verif_hooks::take_trace();
+                    "ok".into()
+                }
                 ["ports"] => {
                     let p = verif_hooks::ports();
                     if p.is_empty() { "-".into() } else { p.iter().map(|x| x.to_string()).collect::<Vec<_>>().join(",") }
